@@ -1,6 +1,7 @@
 (* C06 — Per-test settings resolve by the documented precedence, setting by setting.
    Statements only; proofs are in Proofs/Overrides.v. *)
-From NextestModel Require Import Base.Str Model.Overrides Proofs.Overrides.
+From NextestModel Require Import Base.Str Model.Overrides Model.Backoff Model.RetryResolve
+  Proofs.Overrides Proofs.RetryResolve.
 Open Scope N_scope.
 
 (* The reverse / extend_reverse / chain bookkeeping: for any number of files and profiles the
@@ -29,14 +30,41 @@ Theorem C06_first_match_wins :
 Proof. exact first_match_wins. Qed.
 Print Assumptions C06_first_match_wins.
 
-(* Profile level: the selected profile's value, else the default profile's (for the settings
-   read from one key; priority and test-group have fixed defaults, JUnit storage is below). *)
+(* Profile level, all eleven settings, no setting left out: the tail of TestSettings::new is the
+   documented rule [documented_profile_value] -- the selected profile's value, else the default
+   profile's; priority and test-group have no profile-level key and take their fixed defaults;
+   the JUnit storage flags are read like that too, and are off when no junit.path is configured
+   -- except in the class F22 (a custom profile without a junit.path of its own is selected and
+   the default profile has one), where the code takes the path from the custom profile alone
+   (JunitConfig::new) and the two JUnit storage flags are off. *)
 Theorem C06_profile_then_default :
-  forall custom dflt s k,
-    setting_key s = Some k -> relevant_subkeys s = None ->
-    profile_value custom dflt s = or_else (olookup k custom) (lookup k dflt).
+  forall custom dflt s,
+    profile_value custom dflt s =
+    if known_f22 custom dflt && is_junit_setting s then Some (VLeaf a_false)
+    else documented_profile_value custom dflt s.
 Proof. exact profile_then_default. Qed.
 Print Assumptions C06_profile_then_default.
+
+(* F22. With the documented profile-level rule in place of the coded one, the statement "the
+   resolved value is the first matching override's, else the selected profile's, else the
+   default profile's" is false (witness: [profile.default.junit] path + store-success-output =
+   true, [profile.ci] without a junit section, --profile ci) ... *)
+Theorem C06_junit_path_refuted :
+  exists e bp builtin repo tools sel t s,
+    wf_file builtin = true /\ wf_file repo = true /\ forallb wf_file tools = true /\
+    settings_for e bp builtin repo tools sel t s
+    <> documented_settings_for e bp builtin repo tools sel t s.
+Proof. exact junit_documented_refuted. Qed.
+Print Assumptions C06_junit_path_refuted.
+
+(* ... and true, for every setting, outside the class. *)
+Theorem C06_documented_outside_known :
+  forall e bp builtin repo tools sel t s,
+    known_f22 (custom_profile builtin repo tools sel) (default_profile builtin repo tools) = false ->
+    settings_for e bp builtin repo tools sel t s
+    = documented_settings_for e bp builtin repo tools sel t s.
+Proof. exact settings_documented_outside_known. Qed.
+Print Assumptions C06_documented_outside_known.
 
 (* File layering, key by key: the value of key k of profile n in the built configuration is the
    fold of what the files say about that key alone, built-in defaults first, then tool configs
@@ -103,17 +131,41 @@ Theorem C06_independent :
 Proof. exact independent. Qed.
 Print Assumptions C06_independent.
 
-(* The command line: with --retries (force_retries = Some p) every test's policy is p; the
-   same for --success-output / --failure-output. *)
-Theorem C06_cli_retries :
-  forall cli resolved s p, cli s = Some p -> effective cli resolved s = Some p.
-Proof. exact cli_wins. Qed.
-Print Assumptions C06_cli_retries.
+(* The command line and the environment, for retries (the one per-test setting that has both):
+   clap takes --retries N when given and NEXTEST_RETRIES=N only otherwise ... *)
+Theorem C06_cli_beats_env :
+  forall cli env,
+    clap_retries cli env = match cli, env with
+                           | Some n, _ => Some n
+                           | None, Some n => Some n
+                           | None, None => None
+                           end.
+Proof. exact clap_cases. Qed.
+Print Assumptions C06_cli_beats_env.
 
-Theorem C06_cli_absent :
-  forall cli resolved s, cli s = None -> effective cli resolved s = resolved s.
-Proof. exact cli_absent. Qed.
-Print Assumptions C06_cli_absent.
+(* ... a value from either replaces what the whole configuration resolves for the test -- any
+   files, profiles, overrides, selected profile, platforms, test -- by "N retries, no delay"
+   (what the run then does: C07_forced_replaces_policy) ... *)
+Theorem C06_cli_env_retries :
+  forall (dec : option sval -> policy) cli env n c t,
+    clap_retries cli env = Some n -> resolved_policy dec cli env c t = new_without_delay n.
+Proof. exact resolved_forced. Qed.
+Print Assumptions C06_cli_env_retries.
+
+(* ... and with neither, the policy the unit runs is the resolution above: first matching
+   override that sets retries, else the selected profile's retries, else the default profile's. *)
+Theorem C06_retries_unforced :
+  forall (dec : option sval -> policy) c t,
+    wf_file (rc_repo c) = true -> forallb wf_file (rc_tools c) = true ->
+    resolved_policy dec None None c t =
+    dec match find (fun o => applies (rc_env c) (rc_bp c) t o && is_some (data_get SRetries (ov_data o)))
+                   (ordered_overrides (rc_repo c) (rc_tools c) (rc_sel c)) with
+        | Some o => data_get SRetries (ov_data o)
+        | None => sel_then_default (custom_profile (rc_builtin c) (rc_repo c) (rc_tools c) (rc_sel c))
+                                   (default_profile (rc_builtin c) (rc_repo c) (rc_tools c)) k_retries
+        end.
+Proof. exact resolved_unforced. Qed.
+Print Assumptions C06_retries_unforced.
 
 (* ---- non-vacuity and regression witnesses (closed computations) ---- *)
 
@@ -180,3 +232,29 @@ Example C06_independent_example :
   /\ wf_file w_repo' = true
   /\ w_repo <> w_repo'.
 Proof. repeat split; try (vm_compute; reflexivity). intros H. discriminate H. Qed.
+
+(* F22 as the implementation shows it (reproduced through the harness on every run): under
+   --profile ci the default profile's junit.path is not taken, so nothing is stored; the
+   documented rule gives the default profile's store-success-output = true. Selecting the
+   default profile itself, or giving ci its own path, is outside the class. *)
+Example C06_F22_witness :
+  settings_for w_env w_bp w_builtin w_f22_repo [] s_ci w_t0 SJunitSuccess = Some (VLeaf a_false)
+  /\ documented_settings_for w_env w_bp w_builtin w_f22_repo [] s_ci w_t0 SJunitSuccess
+     = Some (VLeaf s_true)
+  /\ known_f22 (custom_profile w_builtin w_f22_repo [] s_ci) (default_profile w_builtin w_f22_repo []) = true
+  /\ settings_for w_env w_bp w_builtin w_f22_repo [] default_name w_t0 SJunitSuccess = Some (VLeaf s_true)
+  /\ known_f22 (custom_profile w_builtin w_f22_repo [] default_name)
+               (default_profile w_builtin w_f22_repo []) = false
+  /\ known_f22 (custom_profile w_builtin w_repo [w_tool1; w_tool2] s_ci)
+               (default_profile w_builtin w_repo [w_tool1; w_tool2]) = false.
+Proof. repeat split; vm_compute; reflexivity. Qed.
+
+(* --retries 2 with NEXTEST_RETRIES=9 over a configuration that resolves retries = 7 for the test *)
+Example C06_cli_example :
+  let c := {| rc_env := w_env; rc_bp := w_bp; rc_builtin := w_builtin; rc_repo := w_repo;
+              rc_tools := [w_tool1; w_tool2]; rc_sel := s_ci |} in
+  let dec := fun v => match v with Some (VLeaf a) => Fixed (hd 0 a - 48) 1000 false | _ => Fixed 0 0 false end in
+  resolved_policy dec (Some 2) (Some 9) c w_t0 = Fixed 2 0 false
+  /\ resolved_policy dec None (Some 9) c w_t0 = Fixed 9 0 false
+  /\ resolved_policy dec None None c w_t0 = Fixed 7 1000 false.
+Proof. repeat split; vm_compute; reflexivity. Qed.
